@@ -13,6 +13,10 @@
 // also without --format, with module names through --path, with the sources on standard input,
 // with --trace): every output must be byte-identical.
 //
+// A text that Modules.Parse rejects is skipped and loading goes on (as the command does): the
+// texts that are rejected on their own must be the rejected ones in every load order, and the
+// outcome must be that of the set without them (a rejected text leaves no trace).
+//
 // Two different Go outputs for one source set are the failing input.
 package main
 
@@ -58,7 +62,8 @@ type job struct {
 }
 
 type runOut struct {
-	ParseErr string   `json:"parse_err,omitempty"`
+	ParseErr string   `json:"parse_err,omitempty"` // message of the first rejected text (loading goes on, as the command does)
+	Rejected []string `json:"rejected,omitempty"`  // names of the texts Modules.Parse rejected, sorted
 	Dump     []string `json:"dump"`
 	Ext      []string `json:"ext,omitempty"`
 	Raw      []string `json:"raw,omitempty"`
@@ -76,6 +81,15 @@ type jobOut struct {
 	First runOut    `json:"first"`
 	Runs  int       `json:"runs"`
 	Diffs []variant `json:"diffs,omitempty"`
+	// Alone[i]: "" when text i is accepted by a fresh Modules on its own, else the class of the error
+	// (a text that is rejected on its own must be rejected in every company and leave no trace).
+	Alone []string `json:"alone,omitempty"`
+	// Conflict: two texts that are acceptable on their own define the same (kind, name, revision):
+	// which of them is kept depends on the load order by design; only repetitions are compared.
+	Conflict string `json:"conflict,omitempty"`
+	// Without: the outcome of the set without the texts that are rejected on their own.
+	Without *runOut `json:"without,omitempty"`
+	Trace   string  `json:"trace,omitempty"` // what differs between First and Without ("" = nothing)
 	// SurfaceRuns / SurfaceDiff: the yangentry.Parse runs and the first difference found ("" = none).
 	SurfaceRuns int      `json:"surface_runs,omitempty"`
 	SurfaceDiff string   `json:"surface_diff,omitempty"`
@@ -84,10 +98,7 @@ type jobOut struct {
 }
 
 func (o runOut) key() string {
-	if o.ParseErr != "" {
-		return "REJECTED"
-	}
-	return strings.Join(o.Dump, "\n") + "\x00" + strings.Join(o.Ext, "\n") + "\x00" + strings.Join(o.Raw, "\n")
+	return "rejected: " + strings.Join(o.Rejected, " ") + "\x00" + strings.Join(o.Dump, "\n") + "\x00" + strings.Join(o.Ext, "\n") + "\x00" + strings.Join(o.Raw, "\n")
 }
 
 // identityRecords lists every identity of every loaded (sub)module with its Values in order.
@@ -185,10 +196,14 @@ func runOnce(c rescorr.Case, order []int) runOut {
 	ms.ParseOptions.DeviateOptions.IgnoreDeviateNotSupported = c.IgnoreNotSupported
 	for _, i := range order {
 		if err := ms.Parse(c.Texts[i], c.Names[i]); err != nil {
-			out.ParseErr = c.Names[i] + ": " + err.Error()
-			return out
+			// a rejected text must leave no trace: loading goes on with the next one
+			if out.ParseErr == "" {
+				out.ParseErr = c.Names[i] + ": " + err.Error()
+			}
+			out.Rejected = append(out.Rejected, c.Names[i])
 		}
 	}
+	sort.Strings(out.Rejected)
 	errs := ms.Process()
 	out.Dump = lib.DumpOutcome(ms, errs)
 	for _, e := range errs {
@@ -213,14 +228,67 @@ func identity(n int) []int {
 	return o
 }
 
+// alone loads every text on its own and lists what it defines.
+func alone(c rescorr.Case) (verdict []string, conflict string) {
+	owner := map[string]string{}
+	for i := range c.Names {
+		ms := yang.NewModules()
+		if err := ms.Parse(c.Texts[i], c.Names[i]); err != nil {
+			_, _, _, cls := lib.ErrClass(err.Error())
+			verdict = append(verdict, cls)
+			continue
+		}
+		verdict = append(verdict, "")
+		for kind, mm := range map[string]map[string]*yang.Module{"module": ms.Modules, "submodule": ms.SubModules} {
+			for _, m := range mm {
+				h := kind + " " + m.FullName()
+				if o, ok := owner[h]; ok && o != c.Names[i] && conflict == "" {
+					conflict = fmt.Sprintf("%s is defined by %s and by %s", h, o, c.Names[i])
+				}
+				owner[h] = c.Names[i]
+			}
+		}
+	}
+	return verdict, conflict
+}
+
 func runJob(j job) jobOut {
 	var res jobOut
 	base := identity(len(j.Case.Names))
+	res.Alone, res.Conflict = alone(j.Case)
 	wantCli = j.Cli
 	res.First = runOnce(j.Case, base)
 	wantCli = false
 	res.Runs = 1
 	k0 := res.First.key()
+	if res.Conflict != "" {
+		// first come, first served by design: only the repetitions can be compared
+		j.Perms = nil
+		j.Surface = false
+	} else {
+		var expect []string
+		var keep []int
+		for i, v := range res.Alone {
+			if v != "" {
+				expect = append(expect, j.Case.Names[i])
+			} else {
+				keep = append(keep, i)
+			}
+		}
+		sort.Strings(expect)
+		if len(expect) > 0 || len(res.First.Rejected) > 0 {
+			w := runOnce(j.Case, keep)
+			res.Runs++
+			res.Without = &w
+			switch {
+			case strings.Join(expect, " ") != strings.Join(res.First.Rejected, " "):
+				res.Trace = fmt.Sprintf("rejected in this load order: %v; rejected on their own: %v", res.First.Rejected, expect)
+			case !sameStrings(w.Raw, res.First.Raw) || !sameStrings(w.Dump, res.First.Dump) || !sameStrings(w.Ext, res.First.Ext):
+				res.Trace = "the outcome differs from that of the set without the rejected texts: " + describeDiff(w, res.First)
+			}
+			j.Surface = false
+		}
+	}
 	try := func(desc string, order []int) {
 		o := runOnce(j.Case, order)
 		res.Runs++
@@ -925,8 +993,8 @@ func firstLine(s string) string {
 
 func describeDiff(a, b runOut) string {
 	switch {
-	case a.ParseErr != "" || b.ParseErr != "":
-		return fmt.Sprintf("one load order is accepted, another rejected (%q / %q)", a.ParseErr, b.ParseErr)
+	case strings.Join(a.Rejected, " ") != strings.Join(b.Rejected, " "):
+		return fmt.Sprintf("different texts are rejected: %v (%s) / %v (%s)", a.Rejected, a.ParseErr, b.Rejected, b.ParseErr)
 	case !sameStrings(a.Raw, b.Raw):
 		return fmt.Sprintf("returned errors differ: %q / %q", a.Raw, b.Raw)
 	case !sameStrings(a.Dump, b.Dump):
@@ -1050,7 +1118,7 @@ func main() {
 
 	distinct := lib.NewDistinct()
 	featCount := map[string]int64{}
-	var rejected, withErrors, clean, outside, totalRuns, withIdent, surfaceRuns int64
+	var rejected, conflicts, withErrors, clean, outside, totalRuns, withIdent, surfaceRuns int64
 	var modelReqs, sortReqs, specReqs []string
 	var modelIdx, sortIdx []int
 	for i, o := range outs {
@@ -1075,9 +1143,29 @@ func main() {
 				Replay: replay{Mode: "lib", Case: c}})
 		}
 		surfaceRuns += int64(o.SurfaceRuns)
-		if o.First.ParseErr != "" {
-			rejected++
+		if o.Trace != "" {
+			res.AddDisagreement(lib.Disagreement{Kind: "spec", Input: c,
+				Go:          map[string]any{"with_the_rejected_texts": o.First, "without_them": o.Without, "each_text_on_its_own": o.Alone},
+				SpecVerdict: "violates", What: "a rejected text leaves a trace: " + o.Trace, Replay: replay{Mode: "lib", Case: c, OutputA: o.First, OutputB: o.Without}})
+		}
+		if o.Conflict != "" {
+			conflicts++
 			continue
+		}
+		if len(o.First.Rejected) > 0 {
+			rejected++
+		}
+		// the resolver model does not run the AST builder: texts the builder rejects are left out of
+		// its input; texts that only Modules.add rejects stay in (the model's registry is atomic per text)
+		mc := c
+		if len(o.First.Rejected) > 0 {
+			var keep []int
+			for k, v := range o.Alone {
+				if v == "" || v == "duplicate-module" || v == "bad-module-name" {
+					keep = append(keep, k)
+				}
+			}
+			mc = permCase(c, keep)
 		}
 		if distinct.Add(strings.Join(c.Texts, "\x00")) {
 			for _, ft := range feats[i] {
@@ -1095,11 +1183,10 @@ func main() {
 				withIdent++
 			}
 		}
-		if r := rescorr.Request(c); r != "" {
-			// the model's single result, and (the load-order theorem for the model is not proved)
-			// its result for the reversed and for a shuffled load order
-			modelReqs = append(modelReqs, r, rescorr.Request(permCase(c, reversed(len(c.Names)))),
-				rescorr.Request(permCase(c, f.Rand(4_000_000+i).Perm(len(c.Names)))))
+		if r := rescorr.Request(mc); r != "" {
+			// the model's single result, and its result for the reversed and for a shuffled load order
+			modelReqs = append(modelReqs, r, rescorr.Request(permCase(mc, reversed(len(mc.Names)))),
+				rescorr.Request(permCase(mc, f.Rand(4_000_000+i).Perm(len(mc.Names)))))
 			modelIdx = append(modelIdx, i)
 		}
 	}
@@ -1210,7 +1297,7 @@ func main() {
 					both = true
 				}
 			}
-			a, b, runs, tree := cliCase(bin, surfaceCli, i, c, outs[i].First.ParseErr == "", both, Rcli, f.Rand(3_000_000+i))
+			a, b, runs, tree := cliCase(bin, surfaceCli, i, c, len(outs[i].First.Rejected) == 0, both, Rcli, f.Rand(3_000_000+i))
 			mu.Lock()
 			cliRuns += int64(runs)
 			cliSets++
@@ -1256,7 +1343,8 @@ func main() {
 	res.Rule = "distinct_nontrivial = distinct source sets (by text) that load in the generated order; each is processed R times in fresh Modules values plus under all (up to 4 files) or sampled permutations of the load order, all runs compared on trees with full types, identity value lists and raw error messages; evaluations = library runs + goyang command runs + distinct message lists given to errorSort directly + pkg/yangentry.Parse runs (sets with several revisions of one name and every 4th other set, written to disk, R repetitions + permutations, compared with the library API on the same files). Generator: base module b plus 1-5 conflict features (see distribution.features) in shuffled load order with random name prefixes (3 of 4 sets), harness/gen default sets (1 of 4)"
 	res.Distribution["library_runs"] = totalRuns
 	res.Distribution["runs_per_set"] = fmt.Sprintf("R=%d repetitions + min(n!-1, %d) permutations", R, sample)
-	res.Distribution["sets_rejected_at_load"] = rejected
+	res.Distribution["sets_with_a_rejected_text(no-trace clause checked)"] = rejected
+	res.Distribution["sets_with_conflicting_texts(only repetitions compared)"] = conflicts
 	res.Distribution["sets_with_errors"] = withErrors
 	res.Distribution["sets_with_3_or_more_positionless_errors"] = tieLists
 	res.Distribution["clean_sets"] = clean
@@ -1357,7 +1445,27 @@ func doReplay(f *lib.Flags) {
 			printRun(d.Out)
 			bad = true
 		}
-		if o.First.ParseErr == "" {
+		if o.Conflict != "" {
+			fmt.Println("texts that are acceptable on their own conflict (first come, first served; only repetitions compared):", o.Conflict)
+		}
+		if o.Trace != "" {
+			fmt.Println("A REJECTED TEXT LEAVES A TRACE:", o.Trace)
+			if o.Without != nil {
+				fmt.Println("without the rejected texts:")
+				printRun(*o.Without)
+			}
+			bad = true
+		}
+		if o.Conflict == "" {
+			if len(o.First.Rejected) > 0 {
+				var keep []int
+				for k, v := range o.Alone {
+					if v == "" || v == "duplicate-module" || v == "bad-module-name" {
+						keep = append(keep, k)
+					}
+				}
+				c = permCase(c, keep)
+			}
 			if r := rescorr.Request(c); r != "" {
 				d, err := lib.StartDriver(f.Driver)
 				if err != nil {
@@ -1402,9 +1510,8 @@ func doReplay(f *lib.Flags) {
 }
 
 func printRun(o runOut) {
-	if o.ParseErr != "" {
-		fmt.Println("   rejected at load:", o.ParseErr)
-		return
+	if len(o.Rejected) > 0 {
+		fmt.Printf("   rejected at load: %v (first: %s)\n", o.Rejected, o.ParseErr)
 	}
 	for _, m := range o.Raw {
 		fmt.Println("   error:", m)
